@@ -774,6 +774,101 @@ theorem longest_axis_follows_orthonormal (M N : V3 R → V3 R) (hM : LinIso M) (
   longest_axis_follows M N hM hN hMN hNM d c ps E E' cols cols' (eigOut_of_orthonormal c ps E cols h)
     (eigOut_of_orthonormal _ _ E' cols' h') i i' hi hi' hstrict hstrict' huniq
 
+theorem ortho_colOf {cols : V3 R × V3 R × V3 R} (h : Orthonormal3 cols.1 cols.2.1 cols.2.2) (j k : Nat) (hj : j < 3) (hk : k < 3)
+    (hjk : j ≠ k) : V3.dot (colOf cols j) (colOf cols k) = 0 := by
+  have ab := h.ab; have bc := h.bc; have ca := h.ca
+  have ba : V3.dot cols.2.1 cols.1 = 0 := by rw [V3.dot_comm]; exact ab
+  have cb : V3.dot cols.2.2 cols.2.1 = 0 := by rw [V3.dot_comm]; exact bc
+  have ac : V3.dot cols.1 cols.2.2 = 0 := by rw [V3.dot_comm]; exact ca
+  (obtain rfl | rfl | rfl : j = 0 ∨ j = 1 ∨ j = 2 := by omega) <;>
+    (obtain rfl | rfl | rfl : k = 0 ∨ k = 1 ∨ k = 2 := by omega) <;>
+    first | exact absurd rfl hjk | (simp only [colOf]; norm_num; assumption)
+
+/-- The strict maximum of the spectrum FOLLOWS the cell: if the largest eigenvalue of the original cell is strictly the
+    largest and its eigenspace is a line, then whatever orthonormal eigen-decomposition the solver returns for the moved
+    cell has a strictly largest eigenvalue too, equal to the original one.  (The moved matrix has the same spectrum —
+    `cov_follows` + `eigOut_of_orthonormal` — and two orthogonal unit eigenvectors cannot both lie on the moved line.) -/
+theorem strict_max_follows (M N : V3 R → V3 R) (hM : LinIso M) (hN : LinIso N)
+    (hMN : ∀ x, M (N x) = x) (hNM : ∀ x, N (M x) = x) (d c : V3 R) (ps : List (V3 R))
+    (E E' : V3 R) (cols cols' : V3 R × V3 R × V3 R)
+    (h : EigSolverSpec (covApply (covRows (covOf c ps))) E cols)
+    (h' : EigSolverSpec (covApply (covRows (covOf (M c + d) (ps.map (fun p => M p + d))))) E' cols')
+    (i : Nat) (hi : i < 3)
+    (hstrict : ∀ j, j < 3 → j ≠ i → comp E j < comp E i)
+    (huniq : ∀ w, covApply (covRows (covOf c ps)) w = w * comp E i → ∃ k : R, w = colOf cols i * k) :
+    ∃ i', i' < 3 ∧ comp E' i' = comp E i ∧ ∀ j, j < 3 → j ≠ i' → comp E' j < comp E' i' := by
+  have ho := eigOut_of_orthonormal c ps E cols h
+  have ho' := eigOut_of_orthonormal _ _ E' cols' h'
+  have hone : (1 : R) ≠ 0 := one_ne_zero
+  -- A. N col'_k is a unit eigenvector of the original matrix for E'_k
+  have hA : ∀ k, k < 3 → covApply (covRows (covOf c ps)) (N (colOf cols' k)) = N (colOf cols' k) * comp E' k := by
+    intro k hk
+    have := cov_follows M hM d c ps (N (colOf cols' k))
+    rw [hMN, h'.eig k hk] at this
+    have h3 := congrArg N this
+    rw [hNM, ← hN.map_smul] at h3
+    exact h3.symm
+  have hAn : ∀ k, k < 3 → V3.normSq (N (colOf cols' k)) = 1 := fun k hk => by rw [hN.normSq_map]; exact ho'.unit k hk
+  have hle : ∀ k, k < 3 → comp E' k ≤ comp E i := by
+    intro k hk
+    obtain ⟨m, hm, hEm⟩ := ho.complete _ _ (by rw [hAn k hk]; exact hone) (hA k hk)
+    rw [hEm]
+    by_cases hmi : m = i
+    · rw [hmi]
+    · exact le_of_lt (hstrict m hm hmi)
+  -- B. M col_i is a unit eigenvector of the moved matrix for E_i
+  have hB : covApply (covRows (covOf (M c + d) (ps.map (fun p => M p + d)))) (M (colOf cols i)) = M (colOf cols i) * comp E i := by
+    rw [cov_follows M hM, h.eig i hi, hM.map_smul]
+  obtain ⟨k0, hk0, hEk0⟩ := ho'.complete _ _ (by rw [hM.normSq_map, ho.unit i hi]; exact hone) hB
+  refine ⟨k0, hk0, hEk0.symm, fun j hj hjk => ?_⟩
+  rw [← hEk0]
+  rcases lt_or_eq_of_le (hle j hj) with hlt | heq
+  · exact hlt
+  · exfalso
+    -- C. both N col'_j and N col'_k0 would lie on the line through col_i although they are orthogonal unit vectors
+    have ej := hA j hj; rw [heq] at ej
+    have ek := hA k0 hk0; rw [← hEk0] at ek
+    obtain ⟨a, ha⟩ := huniq _ ej
+    obtain ⟨b, hb⟩ := huniq _ ek
+    have hdot : V3.dot (N (colOf cols' j)) (N (colOf cols' k0)) = 0 := by
+      rw [hN.dot_map]; exact ortho_colOf h'.ortho j k0 hj hk0 hjk
+    have hvv : V3.dot (colOf cols i) (colOf cols i) = 1 := ho.unit i hi
+    rw [ha, hb, V3.dot_smul_left, V3.dot_smul_right, hvv] at hdot
+    have hna := hAn j hj
+    rw [ha] at hna
+    have hna' : a * a = 1 := by
+      have : V3.normSq (colOf cols i * a) = a * a * V3.dot (colOf cols i) (colOf cols i) := by
+        simp only [V3.normSq_def, V3.dot_def, V3.smul_x, V3.smul_y, V3.smul_z]; ring
+      rw [this, hvv] at hna; linarith
+    have hnb := hAn k0 hk0
+    rw [hb] at hnb
+    have hnb' : b * b = 1 := by
+      have : V3.normSq (colOf cols i * b) = b * b * V3.dot (colOf cols i) (colOf cols i) := by
+        simp only [V3.normSq_def, V3.dot_def, V3.smul_x, V3.smul_y, V3.smul_z]; ring
+      rw [this, hvv] at hnb; linarith
+    have hab : a * b = 0 := by linarith
+    have : (a * b) * (a * b) = 1 := by
+      calc (a * b) * (a * b) = (a * a) * (b * b) := by ring
+        _ = 1 := by rw [hna', hnb']; ring
+    rw [hab] at this
+    norm_num at this
+
+/-- THE LONGEST AXIS FOLLOWS THE CELL — final form.  Hypotheses about the ORIGINAL cell only (largest eigenvalue of its node
+    covariance strictly the largest, eigenspace a line: "whenever it is unique") and the contract `EigSolverSpec` of the opaque
+    solver for the two matrices; every linear isometry `M` (rotations and reflections), every translation `d`, every node cloud. -/
+theorem longest_axis_follows_final (M N : V3 R → V3 R) (hM : LinIso M) (hN : LinIso N)
+    (hMN : ∀ x, M (N x) = x) (hNM : ∀ x, N (M x) = x) (d c : V3 R) (ps : List (V3 R))
+    (E E' : V3 R) (cols cols' : V3 R × V3 R × V3 R)
+    (h : EigSolverSpec (covApply (covRows (covOf c ps))) E cols)
+    (h' : EigSolverSpec (covApply (covRows (covOf (M c + d) (ps.map (fun p => M p + d))))) E' cols')
+    (i : Nat) (hi : i < 3)
+    (hstrict : ∀ j, j < 3 → j ≠ i → comp E j < comp E i)
+    (huniq : ∀ w, covApply (covRows (covOf c ps)) w = w * comp E i → ∃ k : R, w = colOf cols i * k) :
+    colOf cols' (axisColumn E') = M (colOf cols (axisColumn E)) ∨
+      colOf cols' (axisColumn E') = -(M (colOf cols (axisColumn E))) := by
+  obtain ⟨i', hi', _, hstrict'⟩ := strict_max_follows M N hM hN hMN hNM d c ps E E' cols cols' h h' i hi hstrict huniq
+  exact longest_axis_follows_orthonormal M N hM hN hMN hNM d c ps E E' cols cols' h h' i i' hi hi' hstrict hstrict' huniq
+
 /-! ## every rotation / reflection matrix is covered -/
 
 /-- a matrix whose first two columns are orthonormal and whose third column is their cross product
